@@ -12,6 +12,7 @@ import (
 // Contract files: //@ lines.
 
 type Clause struct {
+	Props []string // when non-empty: the clause belongs only to these properties
 	Label string
 	Expr  *Expr
 	Src   string
@@ -38,6 +39,7 @@ type Contract struct {
 	Modifies   []string
 	ModAll     bool
 	NoPanic    bool
+	NoPanicFor []string // when non-empty: nopanic obligations belong only to these properties
 	Inline     bool
 	Trusted    bool // contract assumed, body not verified (listed in evidence)
 	Pure       bool // may be called from spec expressions
@@ -250,12 +252,22 @@ func ParseSpecFile(path string) (*SpecFile, error) {
 					}
 				}
 			case "requires", "ensures":
+				var cprops []string
+				if strings.HasPrefix(rc.text, "@") {
+					j := strings.IndexAny(rc.text, " \t")
+					if j > 0 {
+						for _, p := range strings.Split(rc.text[1:j], ",") {
+							cprops = append(cprops, strings.TrimSpace(p))
+						}
+						rc.text = strings.TrimSpace(rc.text[j:])
+					}
+				}
 				lab, rest := splitLabel(rc.text)
 				e, err := ParseExpr(rest)
 				if err != nil {
 					return nil, perr(err)
 				}
-				c := &Clause{Label: lab, Expr: e, Src: rest, Line: rc.line}
+				c := &Clause{Label: lab, Expr: e, Src: rest, Line: rc.line, Props: cprops}
 				if rc.kw == "requires" {
 					if c.Label == "" {
 						c.Label = fmt.Sprintf("r%d", len(cur.Requires)+1)
@@ -311,6 +323,11 @@ func ParseSpecFile(path string) (*SpecFile, error) {
 				}
 			case "nopanic":
 				cur.NoPanic = true
+				for _, p := range strings.Split(rc.text, ",") {
+					if p = strings.TrimSpace(p); p != "" {
+						cur.NoPanicFor = append(cur.NoPanicFor, p)
+					}
+				}
 			case "inline":
 				cur.Inline = true
 			case "trusted":
